@@ -6,10 +6,11 @@ ID = 'C12'
 LEAN_MODULES = ['TboxModel.C12.Props']
 EXE = 'c12'
 THEOREMS = ['Tbox.C12.' + t for t in [
-    'C12_total', 'C12_total_feed', 'C12_total_counterexample_unpatched',
+    'tablesStd_holds', 'C12_total', 'C12_total_feed', 'C12_total_counterexample_unpatched',
     'C12_resumable_partial', 'C12_resumable_counterexample', 'C12_resumable_counterexample_unpatched',
-    'C12_segmentation', 'C12_no_request_after_close',
+    'C12_segmentation', 'C12_parse_wellformed', 'C12_segmentation_wellformed', 'C12_no_request_after_close',
     'C12_in_order_once', 'C12_no_response_stuck', 'C12_nothing_after_close',
+    'C12_single_disconnect', 'C12_peer_stream', 'C12_close_after_full_delivery',
     'C12_nothing_after_close_counterexample_unpatched', 'C12_closing_response_lost_unpatched']]
 SOURCES = [
     'modules/http/common.cpp', 'modules/http/url.cpp', 'modules/http/request.cpp', 'modules/http/respond.cpp',
@@ -33,28 +34,37 @@ BATCH_TIMEOUT = 240
 
 TRUSTED = ['models lean/TboxModel/C12/Model.lean (parser, feed loop) and Pipeline.lean (response pipeline) are hand-written '
            'from request_parser.cpp / url.cpp / common.cpp / util/string.cpp / server_imp.cpp / context.cpp; tied by differential runs',
-           'inside the start line the model takes kFail as soon as a find() of the code would run past the CRLF (the code reaches '
-           'kFail a few statements later in each of these cases; see the comment at parseStartLine)',
+           'stage 1 of parse is transcribed literally over the whole buffer (startLineLit, positions as suffixes); that it depends '
+           'only on the start line is the lemma Proofs.startLineLit_eq',
+           'send-side contract assumed (property C06): bytes handed to send reach the peer in order; send-complete is reported only '
+           'after the send buffer drained (part of traceOk); the harness exercises it with responses larger than the socket buffer',
+           'ops method/version compare StringToMethod/StringToHttpVer with a fixed reference table (Model.stdMethods/stdVersions)',
            'method/version tables are regenerated from common.cpp on every run (GenTables.lean)',
            'kernel/socket behaviour (a small write is accepted whole; send-complete follows a burst of writes) is observed, not modelled',
            'std::map / std::string of libstdc++ behave as ordered map / byte string']
-ASSUMPTIONS = ['size_t is 64 bit', 'operator new does not fail', 'the peer does not close or half-close its side (C12 speaks about the server)',
+ASSUMPTIONS = ['size_t is 64 bit', 'operator new does not fail', 'the peer does not half-close (shutdown(SHUT_WR)) while a response is outstanding; a full close at any point is modelled and exercised',
                'each Context is destroyed once (shared_ptr), so each delivered request commits exactly once']
 RULE = ('cases from props/C12/plugin.py: (a) parser level — pipelines of 1-4 generated requests (7 methods, targets with params/query/'
         'fragment/escapes, 3 versions, 0-3 extra headers, Content-Length + body incl. CR/LF/NUL bytes), fed through a real RequestParser '
         'in 1..n segments (single, every byte, random cuts, cuts next to every CR/LF/space/colon), plus the same with missing or '
         'malformed Content-Length and syntax mutations, plus a hostile byte stream; (b) server level — a real Server on a Unix socket, '
-        'pipelines with and without a closing request, handlers completing inside the callback or later in a random permutation. '
-        'non-trivial = the model run delivers at least one request out of >= 2 segments, or parks/flushes a response, or fails/closes; '
+        'pipelines with and without a closing request, handlers completing inside the callback or later in a random permutation, '
+        'the client closing at a random point (also in the same loop pass as a completion), responses of up to 1 MB (partial writes); '
+        '(c) the standard method/version names against a fixed reference table. '
+        'non-trivial = the model run delivers at least one request out of >= 2 segments, or parks/flushes a response, or fails/closes, '
+        'or sees a peer close or a large response; '
         'distinct = distinct op text')
 LEVEL_TEXT = ('Lean 4 theorems over a hand-written model of RequestParser::parse + the onTcpReceived feed loop (totality, '
-              'consumed <= given, termination, resumability of every split, segmentation independence for streams with declared lengths) '
+              'consumed <= given, termination, resumability of every split, segmentation independence for streams with declared lengths, '
+              'functional correctness on every well-formed request with Content-Length and hence unconditional segmentation independence '
+              'for well-formed pipelines) '
               'and of the response pipeline (responses written in request order exactly once, no response stuck, nothing after the closing '
-              'response, connection dropped after it); counterexample theorems for the unpatched code; the model is tied to the working '
+              'response, connection dropped after it and only after every byte was delivered, a single tear-down under peer close at any '
+              'point, peer stream = prefix of the in-order responses under partial writes); counterexample theorems for the unpatched code; the model is tied to the working '
               'tree on every run by differential execution (ASan+UBSan) at parser level and against a real Server over a Unix socket')
 LEVEL_NOTE = ('trusted: Lean kernel, hand-written model + differential tie (coverage bounded by the generator, measured in evidence); '
               'requests without Content-Length are outside the segmentation theorem (the code takes "everything in the buffer" as body); '
-              'peer-initiated close and partial writes of large responses are not exercised')
+              'peer half-close and write errors (EPIPE) are not modelled; the send-side contract is assumed (C06)')
 TECHNIQUE = 'Lean 4 proofs over an executable parser/feed-loop/pipeline model + model/implementation correspondence check'
 DESIGN_REF = 'DESIGN.md §6 C12, §7 row 6'
 
@@ -228,6 +238,34 @@ def gen_server_case(rng):
         ops.append('done %d %s' % (i, hx(rbody(rng))))
     if rng.random() < 0.3:
         ops.append('seg ' + hx(gen_request(rng)))      # traffic after everything (after close: must be ignored)
+    # peer-initiated close at a random point (handlers may still complete afterwards)
+    r = rng.random()
+    if r < 0.25:
+        first = 1 + len(sync)
+        pos = rng.randrange(first + 1, len(ops) + 1) if len(ops) > first else len(ops)
+        dones = [k for k in range(pos, len(ops)) if ops[k].startswith('done ')]
+        if dones and rng.random() < 0.4:
+            k = dones[0]; w = ops[k].split()
+            ops[k] = 'dclose %s %s' % (w[1], w[2])     # commit and peer close in the same loop pass
+        else:
+            ops.insert(pos, 'cclose')
+        if rng.random() < 0.2: ops.append('cclose')    # second close: bad-op on both sides
+    return ops
+
+
+def gen_big_case(rng):
+    """responses larger than the socket buffer: partial writes, send-complete only after the buffer drained"""
+    k = rng.choice([1, 2, 3])
+    closing_at = rng.choice([None, k - 1, k - 1, 0])
+    reqs = [gen_request(rng, declared=True, closing=(closing_at == i)) for i in range(k)]
+    ops = ['srv', 'seg ' + hx(b''.join(reqs))]
+    order = list(range(k)); rng.shuffle(order)
+    for i in order:
+        if rng.random() < 0.7:
+            ops.append('doneN %d %d %d' % (i, rng.choice([5000, 70000, 300000, 1000000]), rng.randrange(256)))
+        else:
+            ops.append('done %d %s' % (i, hx(rbody(rng))))
+    if rng.random() < 0.3: ops.append('cclose')
     return ops
 
 
@@ -258,13 +296,16 @@ def gen(rng, tier):
     m = 350 if tier == "quick" else 10000
     for _ in range(m):
         yield gen_server_case(rng)
+    yield ['srv', 'cclose', 'cclose', 'dclose 0 00', 'doneN 0 10 1', 'doneN x 1 1', 'doneN 0 3000000 1', 'doneN 0 1 256']
+    for _ in range(12 if tier == 'quick' else 150):
+        yield gen_big_case(rng)
 
 
 def nontrivial(ops, model_lines):
     tags = ' '.join(l for l in model_lines if l.startswith('B '))
     nseg = sum(1 for o in ops if o.startswith(('feed ', 'seg ')))
     if 'req-' in tags and nseg >= 2: return 1
-    if any(t in tags for t in ('parked', 'wrote-flush', 'wrote-closing', 'parse-fail', 'seg-after-close')): return 1
+    if any(t in tags for t in ('parked', 'wrote-flush', 'wrote-closing', 'parse-fail', 'seg-after-close', 'peer-close', 'doneN')): return 1
     return None
 
 
